@@ -38,7 +38,9 @@ VARIABLES d, mon, bad, script, hist, elog
 vars == <<d, mon, bad, script, hist, elog>>
 
 NoC == [k |-> "none", id |-> 0, aid |-> 0, prep |-> FALSE, rid |-> 0, has |-> FALSE,
-        val |-> 0, child |-> 0, ho |-> {}, hr |-> {}]
+        val |-> 0, child |-> 0, ho |-> {}, hr |-> {}, od |-> 0]
+\* od: id of the closure that the Drop handler of this closure's captures defers
+\* (through a Deferrer, without Core access) when they are dropped
 Clo(k, id, aid, prep) == [NoC EXCEPT !.k = k, !.id = id, !.aid = aid, !.prep = prep]
 
 T(s) == <<s, 0>>
@@ -95,11 +97,20 @@ DropRet(s, r) ==
      THEN [s1 EXCEPT !.deferQ = Append(@, [Clo("retcall", 0, rt.aid, FALSE) EXCEPT !.rid = r])]
      ELSE s1
 
+\* the Drop handler of a closure's captures: defers another closure
+DropHandler(s, c) ==
+  IF c.od = 0 THEN s
+  ELSE LET ch == Clo("item", c.od, 0, FALSE)
+           s1 == Emit(Emit(s, [e |-> "dh", item |-> c.id]),
+                      [e |-> "sub", q |-> "main", item |-> c.od, hr |-> << >>, via |-> "deferrer"])
+           s2 == IF s.alive THEN [s1 EXCEPT !.deferQ = Append(@, ch)] ELSE s1
+       IN Emit(s2, [e |-> "dhe", item |-> c.id])
+
 \* a closure / message dropped un-run: its token, then what it holds
 DropClosures(s, cs) ==
   IF cs = << >> THEN s ELSE
   LET c == Head(cs)
-      s1 == IF c.k \in {"item", "call"} THEN Emit(s, [e |-> "drop", item |-> c.id, ran |-> FALSE]) ELSE s
+      s1 == IF c.k \in {"item", "call"} THEN DropHandler(Emit(s, [e |-> "drop", item |-> c.id, ran |-> FALSE]), c) ELSE s
       s2 == FoldSet(LAMBDA o, acc : DropOwner(acc, o), s1, c.ho)
       s3 == FoldSet(LAMBDA r, acc : DropRet(acc, r), s2, c.hr)
   IN DropClosures(s3, Tail(cs))
@@ -146,6 +157,8 @@ Effects(s, cx) ==
       E(n) == n \in allowed
   IN
      (IF E("defer") /\ Budget(s) THEN {[op |-> "defer"]} ELSE {})
+  \cup (IF E("deferod") /\ s.nextId + 1 <= MaxItems THEN {[op |-> "deferod"]} ELSE {})
+  \cup (IF E("lazyod") /\ s.nextId + 1 <= MaxItems THEN {[op |-> "lazyod"]} ELSE {})
   \cup (IF E("lazy") /\ Budget(s) /\ cx.k # "top-never" THEN {[op |-> "lazy"]} ELSE {})
   \cup (IF E("idle") /\ Budget(s) THEN {[op |-> "idle"]} ELSE {})
   \cup (IF E("after") /\ Budget(s) THEN {[op |-> "after", dd |-> dd] : dd \in {0, 2}} ELSE {})
@@ -191,6 +204,14 @@ ApplyEff(s, cx, f) ==
          LET c == NewItem(s) IN
          Op(Emit([s EXCEPT !.deferQ = Append(@, c), !.nextId = @ + 1], [SubEv("main", c) EXCEPT !.q = "main"] @@ [via |-> "core"]),
             [op |-> "defer", item |-> c.id])
+    [] f.op = "deferod" ->
+         LET c == [NewItem(s) EXCEPT !.od = s.nextId + 1] IN
+         Op(Emit([s EXCEPT !.deferQ = Append(@, c), !.nextId = @ + 2], [SubEv("main", c) EXCEPT !.q = "main"] @@ [via |-> "core"]),
+            [op |-> "defer", item |-> c.id, od |-> c.od])
+    [] f.op = "lazyod" ->
+         LET c == [NewItem(s) EXCEPT !.od = s.nextId + 1] IN
+         Op(Emit([s EXCEPT !.lazyQ = Append(@, c), !.nextId = @ + 2], SubEv("lazy", c)),
+            [op |-> "lazy", item |-> c.id, od |-> c.od])
     [] f.op = "lazy" ->
          LET c == NewItem(s) IN
          Op(Emit([s EXCEPT !.lazyQ = Append(@, c), !.nextId = @ + 1], SubEv("lazy", c)), [op |-> "lazy", item |-> c.id])
@@ -298,8 +319,8 @@ Leftovers(s, c) ==
 \* result: set of [s, sc] where sc is the script produced for c.id
 RunBody(s, c, cx, xev, somes) ==
   { LET s1 == Leftovers(b, c) IN
-      [s |-> [Emit(Emit(s1, IF cx.k = "prep" THEN [e |-> "xe", item |-> c.id, some |-> sm] ELSE [e |-> "xe", item |-> c.id]),
-                   [e |-> "drop", item |-> c.id, ran |-> TRUE]) EXCEPT !.ops = << >>],
+      [s |-> [DropHandler(Emit(Emit(s1, IF cx.k = "prep" THEN [e |-> "xe", item |-> c.id, some |-> sm] ELSE [e |-> "xe", item |-> c.id]),
+                                [e |-> "drop", item |-> c.id, ran |-> TRUE]), c) EXCEPT !.ops = << >>],
        ops |-> b.ops, some |-> sm]
     : b \in Bodies([Emit(Unpack(s, c), xev) EXCEPT !.ops = << >>], cx, MaxBody), sm \in somes }
 
